@@ -5,6 +5,7 @@ package main
 
 import (
 	"bufio"
+	"io"
 	"bytes"
 	"fmt"
 	"os"
@@ -28,6 +29,10 @@ func parseRef(path string) (rows [][2]uint16, ascii bool, err error) {
 		return nil, false, err
 	}
 	defer f.Close()
+	return parseRefFrom(f)
+}
+
+func parseRefFrom(f io.Reader) (rows [][2]uint16, ascii bool, err error) {
 	ascii = true
 	sc := bufio.NewScanner(f)
 	first := true
@@ -65,6 +70,18 @@ func loadRef(pb, pu string) (*refTables, error) {
 	if err != nil {
 		return nil, err
 	}
+	return buildRef(rb, ru, a1 && a2), nil
+}
+
+// refFromContent: the reference tables of two table files given by content.
+func refFromContent(cb, cu []byte) *refTables {
+	rb, a1, _ := parseRefFrom(bytes.NewReader(cb))
+	ru, a2, _ := parseRefFrom(bytes.NewReader(cu))
+	return buildRef(rb, ru, a1 && a2)
+}
+
+func buildRef(rb, ru [][2]uint16, ascii bool) *refTables {
+	a1, a2 := ascii, true
 	t := &refTables{b2u: map[uint16]rune{}, u2b: map[rune]uint16{}, b2uRows: len(rb), u2bRows: len(ru),
 		b2uWF: true, u2bWF: true, isASCII: a1 && a2}
 	for _, r := range rb {
@@ -79,7 +96,7 @@ func loadRef(pb, pu string) (*refTables, error) {
 			t.u2bWF = false
 		}
 	}
-	return t, nil
+	return t
 }
 
 // wfLine: the answer to the `wf` op, computed from the independent parse (the Lean driver computes
@@ -179,6 +196,15 @@ func (t *refTables) mutualOnly(s []byte) bool {
 }
 
 func judge(i int, line, out string) {
+	if isHistOp(line) {
+		judgeHist(i, line, out)
+		return
+	}
+	judgeT(ref, i, line, out)
+}
+
+// judgeT judges one stateless op against the reference tables t.
+func judgeT(t *refTables, i int, line, out string) {
 	ws := strings.Fields(line)
 	op := ws[0]
 	if op == "cfg" {
@@ -187,7 +213,7 @@ func judge(i int, line, out string) {
 			run.Fail(i, "crash:initconfig", fmt.Sprintf("types.InitConfig under ini variant %s (both tables named under their keys): %s", ws[1], out))
 			return
 		}
-		judge(i, ws[2]+" "+ws[3], out)
+		judgeT(t, i, ws[2]+" "+ws[3], out)
 		return
 	}
 	if out == "PANIC" || out == "TIMEOUT" {
@@ -203,14 +229,18 @@ func judge(i int, line, out string) {
 		}
 		return
 	}
+	if op != "wf" && op != "tbl" && out != "-" && (len(out)%2 != 0 || strings.Trim(out, "0123456789abcdef") != "") {
+		run.Fail(i, "crash:child", fmt.Sprintf("%s: the process running the real code answered %q", line, out))
+		return
+	}
 	switch op {
 	case "wf":
-		if !ref.b2uWF || !ref.u2bWF || !ref.isASCII {
+		if !t.b2uWF || !t.u2bWF || !t.isASCII {
 			run.Fail(i, "table:not-wf", "a table file has a row outside the well-formedness the guarantees are stated under: "+out)
 		}
 	case "b2u":
 		in, got := hx.UnHex(ws[1]), hx.UnHex(out)
-		want := ref.wantB2U(in)
+		want := t.wantB2U(in)
 		if !bytes.Equal(got, want) {
 			key := "exact:big5toutf8"
 			if allASCII(in) {
@@ -225,7 +255,7 @@ func judge(i int, line, out string) {
 		// a single (generalised) 2-/3-byte encoding of a table code point, surrogate rows included
 		if cp, ok := decGen(in); ok {
 			want := []byte{0xff, 0xfd}
-			if b, ok := ref.u2b[rune(cp)]; ok {
+			if b, ok := t.u2b[rune(cp)]; ok {
 				want = []byte{byte(b >> 8), byte(b)}
 			}
 			if !bytes.Equal(got, want) {
@@ -233,7 +263,7 @@ func judge(i int, line, out string) {
 			}
 			return
 		}
-		want, wf := ref.wantU2BPrefix(in)
+		want, wf := t.wantU2BPrefix(in)
 		if wf && !bytes.Equal(got, want) {
 			key := "exact:utf8tobig5"
 			if allASCII(in) {
@@ -245,7 +275,7 @@ func judge(i int, line, out string) {
 		}
 	case "rt":
 		in, got := hx.UnHex(ws[1]), hx.UnHex(out)
-		if ref.mutualOnly(in) && !bytes.Equal(got, in) {
+		if t.mutualOnly(in) && !bytes.Equal(got, in) {
 			run.Fail(i, "roundtrip", fmt.Sprintf("Utf8ToBig5(Big5ToUtf8(% x)) = % x", in, got))
 		}
 	}
